@@ -163,6 +163,14 @@ Definition corr_stft (c : scase) : bool :=
   | _, _ => false
   end.
 
+(* the float constant handed to the model is the IEEE value for the size / hop the overlap-add gets *)
+Definition stft_gc_ok (c : scase) : bool :=
+  match spec_ola_param (s_layers c) "size", spec_ola_param (s_layers c) "hop" with
+  | Some (VNat s), Some (VNat h) => Qc_eqb (s_gc c) (float_recip (ceil_div s h))
+  | Some (VNat s), Some VNone => Qc_eqb (s_gc c) (float_recip (ceil_div s s))
+  | _, _ => true
+  end.
+
 Definition holds_stft (c : scase) : bool :=
   match stft_promise f1 f2 wsem (s_gc c) (s_layers c) (s_func c) (s_sig c) with
   | PSilent => true
@@ -176,5 +184,5 @@ Definition holds_stft (c : scase) : bool :=
                   p (spec_ola_param (s_layers c))
       | _ => false
       end
-  | PSamples out => match s_obs c with OSamples o None => qlist_eqb o out | _ => false end
+  | PSamples out => match s_obs c with OSamples o None => qlist_eqb o out && stft_gc_ok c | _ => false end
   end.
